@@ -198,6 +198,30 @@ def one_shot(case):
     return zlib.crc32(repr(sorted((k, repr(v)) for k, v in case.items())).encode()) % 5 == 0
 
 
+def elsewhere_first(case, _invoke):
+    """History across circuits: about one case in seven (decided by the case, so replays agree), or any case that
+    asks for it, first builds the same gadget in an unrelated fresh circuit.  Nothing of that may be remembered."""
+    import zlib
+
+    from cirbo.core.circuit import Circuit
+
+    wanted = case.get("history") == "another-circuit-first" or (
+        "history" not in case and not case.get("live_outputs") and sum(case.get("widths", [99])) <= 24
+        and zlib.crc32(("elsewhere" + repr(sorted((k, repr(v)) for k, v in case.items()))).encode()) % 7 == 0)
+    if not wanted:
+        return
+    w = case["widths"]
+    other = Circuit.bare_circuit(sum(w))
+    labs, ops, k = list(other.inputs), [], 0
+    for n in w:
+        ops.append(labs[k:k + n])
+        k += n
+    try:
+        _invoke(dict(case, one_shot=False), other, ops)
+    except Exception:  # noqa: BLE001 - whatever the gadget thinks of this circuit, the measured call is the next one
+        pass
+
+
 class OneShot(list):
     """A label list that the callee receives as a one-shot iterator, kept as a list for the harness."""
 
